@@ -156,8 +156,8 @@ class Run(object):
                 s2 = dict((a, b) for a, b in sig.items() if a not in ("path", "kind"))
                 k = json.dumps(s2, sort_keys=True, default=repr)
                 agg.setdefault(k, []).append(sig.get("path", ""))
-            for k, ps in sorted(agg.items(), key=lambda kv: -len(kv[1]))[:30]:
-                print("  %5d x %s paths=%s" % (len(ps), k[:260], sorted(set(ps))[:4]))
+            for k, ps in sorted(agg.items(), key=lambda kv: -len(kv[1]))[:12]:
+                print("  %5d x %s paths=%s" % (len(ps), k[:200], sorted(set(ps))[:3]))
             print("RESULT %s VIOLATIONS=%d wall=%.1fs" % (self.pid, len(self.violations), wall))
             return 1
         print("RESULT %s HOLD states=%d traces=%d evaluations=%d nontrivial=%d wall=%.1fs" % (
